@@ -42,13 +42,14 @@ def main():
     rc_with, o_with = sh(f"{runner} seed_out/{demo}", wt, env)
     meta["demo_with_change"] = dict(exit=rc_with, tail=o_with[-400:])
     # (b) without
-    with open("/tmp/seedtools/_tmp.diff", "w") as f:
+    with open("/tmp/seedtools/_tmp.diff", "w") as f:  # noqa
         f.write(diff)
-    sh("git stash", wt)
+    # NOT `git stash`: the stash is shared between all worktrees of a repository
+    sh("git apply -R /tmp/seedtools/_tmp.diff", wt)
     sh("/venv/bin/python /tmp/seedtools/build_inplace.py " + wt)
     rc_without, o_without = sh(f"{runner} seed_out/{demo}", wt, env)
     meta["demo_without_change"] = dict(exit=rc_without, tail=o_without[-200:])
-    sh("git stash pop", wt)
+    sh("git apply /tmp/seedtools/_tmp.diff", wt)
     sh("/venv/bin/python /tmp/seedtools/build_inplace.py " + wt)
     ok = ("696 passed" in meta["suite_with_change"]) and rc_with != 0 and rc_without == 0
     meta["confirmed"] = ok
